@@ -188,6 +188,8 @@ pub struct Shape {
     pub freelist_run: u64,
     pub hwm: u64,
     pub live_pages: u64,
+    /// pages owned by a header, the tree (with overflow runs) or the free-list page run
+    pub reachable_pages: u64,
     pub file_len: u64,
 }
 
@@ -594,5 +596,6 @@ pub fn check(buf: &[u8], file_len: u64, pagesize: u64) -> Result<Report, String>
     w.shape.hwm = num_pages;
     w.shape.file_len = file_len;
     w.shape.live_pages = num_pages.saturating_sub(freelist.len() as u64);
+    w.shape.reachable_pages = w.owner.iter().filter(|o| matches!(**o, O_META | O_TREE | O_FLPAGE)).count() as u64;
     Ok(Report { header, errors: w.errors, contents, shape: w.shape, freelist })
 }
